@@ -24,7 +24,7 @@ from .sampling_method import SamplingMethod
 from casadi import sumsqr, horzcat, vertcat, linspace, substitute, MX, evalf,\
                    vcat, collocation_points, collocation_interpolators, hcat,\
                    repmat, DM, sum2, mtimes, vvcat, depends_on, Function
-from .casadi_helpers import get_ranges_dict, HashOrderedDict, HashDict, is_numeric
+from .casadi_helpers import get_ranges_dict, HashOrderedDict, HashDict, is_numeric, reshape_number
 import casadi as ca
 from itertools import repeat
 try:
@@ -334,6 +334,8 @@ class DirectCollocation(SamplingMethod):
                             raise e
         for var, expr in list(initial_alg.items()):
             opti_initial = opti.initial()
+            # A scalar guess is repeated to fit the shape of a vector-valued algebraic variable
+            expr = reshape_number(var, expr)
             for k in range(self.N):
                 for i, e in enumerate(self.Zc[k]):
                     e_shape = e[algs[var],:].shape
